@@ -2,7 +2,7 @@
    carries the answers the oracles gave on that case (what json.Unmarshal, ctfe.ValidateChain and
    x509.BuildPrecertTBS returned, in abstract form); the oracle instances built here return
    exactly those answers. The result is rendered as the Go driver renders the implementation's. *)
-From SL Require Export Submit.Model.
+From SL Require Export Submit.Model Submit.IssuerModel.
 Open Scope N_scope.
 
 Definition mk_acert (raw tbs spki : bytes) (nb na : Z) (pre : N) (preiss sa scts : bool) : acert :=
@@ -48,6 +48,35 @@ Definition run_setroots (sha : bytes -> bytes) (st : rstate) (pem : bytes) (cert
     (ok up : bool) : rstate * bytes :=
   let '(st', r) := set_roots (fun _ => (certs, ok)) pem up st in
   (st', (if r then s2b "ok" else s2b "err") ++ x3a :: show_roots sha st').
+
+(* ---- the issuer loop of addLeafToPool (Submit/IssuerModel.v) on one request of the issuer
+   scenario of the harness. Per chain certificate: was its fingerprint cached, what did issuer/<fp> hold
+   (0 nothing, 1 the certificate, 2 other bytes), did the backend's Fetch / Upload work for it
+   during the request. Printed: ok/err, then cache and store afterwards, per certificate. ---- *)
+Definition other_contents (iss : bytes) : bytes := x00 :: iss.   (* some bytes that differ from iss *)
+
+Definition stored_word (sha : bytes -> bytes) (st : istate) (iss : bytes) : bytes :=
+  match lookup_fp (sha iss) (i_store st) with
+  | None => s2b "none"
+  | Some c => if bytes_eqb c iss then s2b "same" else s2b "other"
+  end.
+
+Definition show_csv (l : list bytes) : bytes :=
+  match l with [] => [x2d] | _ => join_with x2c l end.
+
+Definition uitem : Type := (bytes * (bool * (N * (bool * bool))))%type.
+
+Definition run_upissuers (sha : bytes -> bytes) (items : list uitem) : bytes :=
+  let known := flat_map (fun it : uitem => if fst (snd it) then [sha (fst it)] else []) items in
+  let store := flat_map (fun it : uitem => match fst (snd (snd it)) with
+                                   | 0 => []
+                                   | 1 => [(sha (fst it), fst it)]
+                                   | _ => [(sha (fst it), other_contents (fst it))]
+                                   end) items in
+  let '(st', ok) := upload_issuers sha (map (fun it : uitem => (fst it, snd (snd (snd it)))) items) (mkI known store) in
+  (if ok then s2b "ok" else s2b "err")
+  ++ x3a :: show_csv (map (fun it : uitem => b2i (mem_fp (sha (fst it)) (i_known st'))) items)
+  ++ x3a :: show_csv (map (fun it : uitem => stored_word sha st' (fst it)) items).
 
 (* table-backed sha for re-evaluating cases inside Coq (vm_compute cross-check of extraction) *)
 Fixpoint tbl_sha (t : list (bytes * bytes)) (x : bytes) : bytes :=
